@@ -234,7 +234,7 @@ def expr_dir_b(v, pid, tier, entries, what, families=("mixed", "nested")):
 @register("C01")
 def c01(a):
     v = Verdict("C01", a.tier, "model_checking")
-    flat_model(v, "C01", a.tier, ["Refines", "RefinesOne"])
+    flat_model(v, "C01", a.tier, ["Refines", "RefinesOne", "VioOk"])
     expr_dir_a(v, "C01", a.tier, ["flat", "flat_wo"], "evaluation differs from the documented semantics")
     expr_dir_b(v, "C01", a.tier, ["flat", "flat_wo"], "evaluation differs from the documented semantics")
     v.assumptions += ["decided for the free term algebra; other data types are homomorphic images because the "
